@@ -144,6 +144,13 @@ def reference_schedule(p, horizon_end):
 
     last_slot = (horizon_end - p["start"]) // G
     remaining = list(order)
+    # a milestone with an explicit start has its dates before anything is scheduled: it is placed up
+    # front (its predecessors cannot move it), so that its successors do not wait for them either
+    for f in list(remaining):
+        t = nodes[f]
+        if t.get("start") is not None and not t.get("effort"):
+            placed[f] = (t["start"], t["start"])
+            remaining.remove(f)
     while remaining:
         pick = None
         for f in remaining:
